@@ -394,4 +394,21 @@ theorem cand_complete {f : Fmt} (hf : WF f) {b : Nat} (hb0 : 0 < b) (hb : b < f.
     · exact lo2 (lt_of_le_of_ne hlo (fun he => hodd (hlot he)))
     · exact hi2 (lt_of_le_of_ne hhi (fun he => hodd (hhit he)))
 
+/-- the exponent at which `shortest` starts its downward search -/
+def upOf (f : Fmt) (b : Nat) : Int :=
+  ((bitlen (interval f b).hi : Int) + (interval f b).e2) * 30103 / 100000 + 2
+
+theorem shortest_eq (f : Fmt) (b : Nat) : shortest f b = shortestGo (interval f b) 420 (upOf f b) := rfl
+
+/-- among all exponents up to the search start, `shortest` returns the largest that admits a
+round-tripping decimal -/
+theorem shortest_maximal_exp {f : Fmt} (hf : WF f) {b : Nat} (hb0 : 0 < b) (hb : b < f.infBits)
+    {D : Nat} {E : Int} (h : (D, E) ∈ shortest f b) {D' : Nat} {E' : Int} (hD1 : 1 ≤ D')
+    (hrt : roundNE f (decFrac D' E').1 (decFrac D' E').2 = b) (hup : E' ≤ upOf f b) : E' ≤ E := by
+  rw [shortest_eq] at h
+  obtain ⟨_, hfirst⟩ := shortestGo_first _ _ _ _ _ h
+  by_contra hlt
+  obtain ⟨c1, c2⟩ := cand_complete hf hb0 hb hD1 hrt
+  exact hfirst E' (by omega) hup (le_trans c1 c2)
+
 end LexVerif.Proof.RoundNE
